@@ -214,9 +214,33 @@ def run(ctx):
     ctx.sample({"query": lines[0][0], "records": lines[0][1:3], "fresh": res[0].get("fresh", [])[:2]})
     ctx.sample({"query": lines[-40][0], "records": lines[-40][1:3], "fresh": res[-40].get("fresh", [])[:2]})
 
+    # cold start: the goroutines are the first evaluations of each prepared query in a new process (the references are
+    # computed afterwards), so that whatever an evaluation sets up on first use is set up by several goroutines at once
+    cres = kfl.run_cases(ctx, "reusecold", lines, timeout=1800)
+    for l, o in zip(lines, cres):
+        ctx.count_case(("cold",) + tuple(l), o.get("outcome") == "ok", "reuse-cold")
+        if o.get("outcome") in ("panic", "crash", "timeout"):
+            ctx.violation({"kind": "cold-" + o["outcome"], "query": l[0], "records": l[1:], "msg": o.get("msg", "")[-600:], "how": "vh-kfl reusecold"})
+            break
+        if o.get("outcome") == "ok" and (o["concurrent_mismatches"] or not o["concurrent_snap_equal"]):
+            if nondeterministic(ctx, l[0], l[1:]) and ctx.is_known("map-order"):
+                continue
+            ctx.violation({"kind": "cold-concurrent-mismatch", "query": l[0], "records": l[1:], "mismatches": o["concurrent_mismatches"],
+                           "tree_unchanged": o["concurrent_snap_equal"], "how": "vh-kfl reusecold"})
+            break
+
     # race detector (support)
     race = build_race(ctx)
     if race:
+        sub0 = rng.sample(lines, min(len(lines), 150 if quick else 1000)) + rng.sample(xml_lines, min(len(xml_lines), 12 if quick else 80))
+        enc0 = "\n".join("\t".join(kfl.hx(f) for f in l) for l in sub0) + "\n"
+        rc0, out0 = vlib.sh([race, "reusecold"], inp=enc0.encode(), timeout=1200, env=vlib.env_with_go(), cwd=ctx.work)
+        n0 = out0.count("WARNING: DATA RACE")
+        ctx.cov["race_detector_cold"] = {"queries": len(sub0), "reports": n0, "exit": rc0}
+        if n0 or rc0 not in (0,):
+            i = out0.find("WARNING: DATA RACE")
+            ctx.violation({"kind": "data-race", "report": out0[i:i + 1500] if i >= 0 else out0[-800:], "queries": [l[0] for l in sub0][:20],
+                           "how": "vh-kfl-race reusecold"})
         sub = rng.sample(lines, min(len(lines), 60 if quick else 400)) + rng.sample(xml_lines, min(len(xml_lines), 12 if quick else 80))
         enc = "\n".join("\t".join(kfl.hx(f) for f in l) for l in sub) + "\n"
         rc, out = vlib.sh([race, "reuse"], inp=enc.encode(), timeout=1200, env=vlib.env_with_go(), cwd=ctx.work)
